@@ -689,10 +689,23 @@ impl Engine for Text {
                         "to_be_bytes" => Exp::Is(Out::Y(be.clone())),
                         "to_ne_bytes" => Exp::Is(Out::Y(ne.clone())),
                         "encoded_size" | "max_encoded_len" => Exp::Is(Out::V(n as u128)),
-                        "decode(encode)" | "serde_back" | "serde_wrapping_back" | "serde_from_bits_json" => Exp::Is(Out::O(Some(a))),
+                        "decode(encode)" | "serde_back" | "serde_wrapping_back" | "serde_from_bits_json" | "decode_stream(encode)" | "decode_record" | "decode_vec" => Exp::Is(Out::O(Some(a))),
+                        "encode_record" => {
+                            let mut v = vec![7u8];
+                            v.extend_from_slice(&le);
+                            v.extend_from_slice(&[0xEF, 0xBE]);
+                            Exp::Is(Out::Y(v))
+                        }
+                        "encode_vec" => {
+                            // compact length 2 -> 0x08, then the elements
+                            let mut v = vec![8u8];
+                            v.extend_from_slice(&le);
+                            v.extend_from_slice(&le);
+                            Exp::Is(Out::Y(v))
+                        }
                         "from_le(to_le)" | "from_be(to_be)" | "from_ne(to_ne)" | "from_bits(to_bits)" | "to_bits" | "wrapping_bits" | "wrapping_field" => Exp::Is(Out::V(a)),
                         "serde_json" | "serde_wrapping" => Exp::Is(Out::S(json.clone())),
-                        "decode_input" => {
+                        "decode_input" | "decode_stream" => {
                             if input.len() >= n {
                                 Exp::Is(Out::F(from_le(&input[..n]), true))
                             } else {
